@@ -100,6 +100,8 @@ def hook(nm, ctx, *a):
     if raised:
         if CASE.get("fault_kind") == "assert":
             raise AssertionError("hookfault")
+        if CASE.get("fault_kind") == "kbd":
+            raise KeyboardInterrupt()          # the user interrupts the run while a hook is running
         raise RuntimeError("hookfault")
 '''
 
